@@ -14,6 +14,7 @@ mod config;
 mod reach;
 mod builder;
 mod replace;
+mod dwarf;
 
 fn main() {
     let args: Vec<String> = std::env::args().collect();
@@ -40,6 +41,7 @@ fn main() {
         "config" => config::config(&args[2..]),
         "builder" => builder::builder(&args[2..]),
         "replace" => replace::replace(&args[2..]),
+        "dwarf" => dwarf::dwarf(&args[2..]),
         other => {
             eprintln!("unknown subcommand {other}");
             exit(2)
